@@ -218,26 +218,127 @@ Qed.
 
 (* non-vacuity + the -128 corner, concretely *)
 Example py_to_c_example :
-  exists b, gen_rx true {| r_ver := 0; r_fn := Some 2715647; r_tn := Some 7; r_rssi := Some (-120); r_toa := Some (-32768);
-                           r_nope := false; r_mod := Some 0%nat; r_tset := None; r_tsc := None; r_ci := None;
-                           r_burst := Some (repeat (-127) 147 ++ [-128]) |} = Ok b
-            /\ c_data_rx b = RxInd 7 2715647 (-120) (-32768) (repeat (-127) 148).
-Proof. eexists. split; vm_compute; reflexivity. Qed.
+  match gen_rx true {| r_ver := 0; r_fn := Some 2715647; r_tn := Some 7; r_rssi := Some (-120); r_toa := Some (-32768);
+                       r_nope := false; r_mod := Some 0%nat; r_tset := None; r_tsc := None; r_ci := None;
+                       r_burst := Some (repeat (-127) 147 ++ [-128]) |} with
+  | Ok b => c_data_rx b = RxInd 7 2715647 (-120) (-32768) (repeat (-127) 148) /\ length b = 158%nat
+  | _ => False
+  end.
+Proof. vm_compute. split; reflexivity. Qed.
 
-(* a version-1 datagram is refused by trxcon (it only speaks TRXDv0) *)
+
+(* a version-1 datagram is refused by trxcon (it only speaks TRXDv0), whatever follows the first octet *)
+Lemma c_rx_bad_version b0 rest : (7 <= length rest)%nat -> Z.shiftr b0 4 <> 0 -> c_data_rx (b0 :: rest) = RxBadVer.
+Proof.
+  intros Hl Hv. unfold c_data_rx. destruct gen_trxif_consts as [_ [-> [-> _]]].
+  change (Z.to_nat 512) with (S 511). rewrite firstn_cons.
+  assert (Hfl : (7 <= length (firstn 511 rest))%nat) by (rewrite firstn_length; lia).
+  set (tl := firstn 511 rest) in *. clearbody tl. cbn [length nth_error].
+  destruct (Z.of_nat (S _) <=? 0) eqn:E0; [lia|]. destruct (Z.of_nat (S _) <? 8) eqn:E1; [lia|].
+  destruct (Z.shiftr b0 4 =? 0) eqn:E2; [apply Z.eqb_eq in E2; contradiction|]. reflexivity.
+Qed.
+
 Lemma c_rx_v1_refused m l b : gen_rx l m = Ok b -> r_ver m = 1 -> c_data_rx b = RxBadVer.
 Proof.
   intros Hgen Hver. unfold gen_rx in Hgen. apply bind_ok in Hgen as [[] [Hval Hgen]].
   apply validate_rx_iff in Hval. destruct Hval as [[_ [[f [Ef Hf]] [t [Et Ht]]]] [[r [Er Hr]] [[a [Ea Ha]] [_ [Hci _]]]]].
   destruct (Hci Hver) as [c [Ec Hc]].
   rewrite Hver, Ef, Et, Er, Ea, Ec in Hgen. change (1 >=? 1) with true in Hgen. cbv iota in Hgen.
-  unfold gen_common, be32, i16, oz in Hgen. cbv zeta in Hgen. cbn [app] in Hgen. injection Hgen as <-.
-  destruct (b0_rt 1 t ltac:(lia) ltac:(lia)) as [Hs [_ Hr0]].
-  unfold c_data_rx. destruct gen_trxif_consts as [_ [-> [-> _]]].
-  match goal with |- context [firstn ?n (?x :: ?r)] => set (rest := r) end.
-  assert (Hfl : (11 <= length (firstn (Z.to_nat 512) (Z.lor (Z.shiftl 1 4) (Z.land t 7) :: rest)))%nat).
-  { rewrite firstn_length. subst rest. cbn [length]. lia. }
-  change (Z.to_nat 512) with (S 511) in *. cbn [firstn] in *. cbn [length] in Hfl.
-  cbn [length nth_error]. rewrite Hs.
-  destruct (Z.of_nat (S _) <=? 0) eqn:E0; [lia|]. destruct (Z.of_nat (S _) <? 8) eqn:E1; [lia|]. reflexivity.
+  destruct (b0_rt 1 t ltac:(lia) ltac:(lia)) as [Hs _].
+  unfold gen_common, be32, i16, oz in Hgen. cbv zeta in Hgen.
+  set (b0 := Z.lor (Z.shiftl 1 4) (Z.land t 7)) in *. clearbody b0.
+  cbn [app] in Hgen. injection Hgen as <-.
+  apply c_rx_bad_version; [|rewrite Hs; lia].
+  cbn [length]. lia.
 Qed.
+
+(* ================= C -> Python: what trxcon sends is parsed by the toolkit to the values trxcon was given ================= *)
+Lemma parse_tx_layout v f t p bu : (v = 0 \/ v = 1) -> 0 <= t <= 7 -> 0 <= f < 4294967296 ->
+  parse_tx (layout_tx v f t p bu) =
+  Ok {| t_ver := v; t_fn := Some f; t_tn := Some t; t_pwr := Some p;
+        t_burst := match bu with [] => None | _ :: _ => Some (tx_parse_burst bu) end |}.
+Proof.
+  intros Hver Ht Hf. unfold layout_tx. cbn [app].
+  unfold parse_tx. cbn [length Nat.ltb Nat.leb idx nth_error bind].
+  assert (Hsh : Z.shiftr (v * 16 + t) 4 = v /\ Z.land (v * 16 + t) 7 = t).
+  { rewrite <- b0_val by lia. destruct (b0_rt v t ltac:(lia) ltac:(lia)) as [A [B _]]. auto. }
+  destruct Hsh as [-> ->].
+  assert (Hk : known v = true) by (apply known_iff; exact Hver). rewrite Hk. cbn [negb].
+  unfold slice. cbn [skipn Nat.sub firstn].
+  change [f / 16777216 mod 256; f / 65536 mod 256; f / 256 mod 256; f mod 256] with (be32 f).
+  rewrite be32_rt by lia. cbn [bind].
+  assert (Hhl : tx_hdr_len v = Ok 6%nat) by (unfold tx_hdr_len; destruct Hver as [-> | ->]; reflexivity).
+  rewrite Hhl. cbn [bind Nat.ltb Nat.leb Nat.eqb skipn].
+  destruct bu as [|x xs]; reflexivity.
+Qed.
+
+Lemma map_u8_id l : Forall (fun b => 0 <= b < 256) l -> map u8 l = l.
+Proof. induction 1 as [|x l Hx _ IH]; [reflexivity|]. cbn [map]. rewrite IH. unfold u8. f_equal. lia. Qed.
+
+Lemma c_burst_req_layout tn fn pwr burst :
+  0 <= tn <= 255 -> 0 <= fn < 4294967296 -> 0 <= pwr <= 255 -> Forall (fun b => 0 <= b < 256) burst -> (length burst <= 506)%nat ->
+  c_burst_req tn fn pwr burst = TxSent (layout_tx 0 fn tn pwr burst).
+Proof.
+  intros Ht Hf Hp Hb Hl. unfold c_burst_req. destruct gen_trxif_consts as [_ [-> _]].
+  destruct (6 + Z.of_nat (length burst) >? 512) eqn:E; [lia|].
+  rewrite map_u8_id by assumption. unfold u8, u32, layout_tx, be32.
+  replace (tn mod 256) with (0 * 16 + tn) by lia. replace (fn mod 4294967296) with fn by lia. replace (pwr mod 256) with pwr by lia.
+  reflexivity.
+Qed.
+
+Lemma c_burst_req_oob tn fn pwr burst : (506 < length burst)%nat <-> c_burst_req tn fn pwr burst = TxOOB.
+Proof.
+  unfold c_burst_req. destruct gen_trxif_consts as [_ [-> _]].
+  destruct (6 + Z.of_nat (length burst) >? 512) eqn:E; split; intros H; try reflexivity; try lia; discriminate.
+Qed.
+
+Theorem c_to_py_gen tn fn pwr burst :
+  0 <= tn <= 7 -> 0 <= fn < 4294967296 -> 0 <= pwr <= 255 -> Forall (fun b => 0 <= b < 256) burst -> (length burst <= 506)%nat ->
+  exists o, c_burst_req tn fn pwr burst = TxSent o /\ o = layout_tx 0 fn tn pwr burst /\
+    parse_tx o = Ok {| t_ver := 0; t_fn := Some fn; t_tn := Some tn; t_pwr := Some pwr;
+                       t_burst := match burst with [] => None | _ :: _ => Some (tx_parse_burst burst) end |}.
+Proof.
+  intros Ht Hf Hp Hb Hl. eexists. split; [apply c_burst_req_layout; try assumption; lia|]. split; [reflexivity|].
+  apply parse_tx_layout; auto.
+Qed.
+
+Theorem c_to_py tn fn pwr burst :
+  0 <= tn <= 7 -> 0 <= fn < 4294967296 -> 0 <= pwr <= 255 -> Forall (fun b => 0 <= b < 256) burst ->
+  (length burst = 148%nat \/ length burst = 444%nat) ->
+  exists o, c_burst_req tn fn pwr burst = TxSent o /\
+    parse_tx o = Ok {| t_ver := 0; t_fn := Some fn; t_tn := Some tn; t_pwr := Some pwr; t_burst := Some burst |}.
+Proof.
+  intros Ht Hf Hp Hb Hl.
+  destruct (c_to_py_gen tn fn pwr burst Ht Hf Hp Hb ltac:(lia)) as [o [E1 [_ E2]]].
+  exists o. split; [exact E1|]. rewrite E2.
+  destruct burst as [|x xs]; [cbn in Hl; lia|].
+  pose proof (tx_parse_burst_pad (x :: xs) [] Hl (or_introl eq_refl)) as Hp'. rewrite app_nil_r in Hp'. rewrite Hp'. reflexivity.
+Qed.
+
+(* other burst lengths: the toolkit's parser cuts a burst of 149..443 octets to 148 and one of 445..506 to 444, keeps a shorter one
+   as it is (TxMsg.validate refuses it later) and reports "no burst" for an empty one *)
+Lemma tx_parse_burst_cases bu :
+  let n := length bu in
+  tx_parse_burst bu = if (444 <? Z.of_nat n) then firstn 444 bu else if (148 <? Z.of_nat n) && (Z.of_nat n <? 444) then firstn 148 bu else bu.
+Proof.
+  cbv zeta. unfold tx_parse_burst. destruct gen_bl as [-> ->].
+  destruct (Z.of_nat (length bu) >=? 444) eqn:E1; destruct (Z.of_nat (length bu) >? 444) eqn:E2;
+  destruct (Z.of_nat (length bu) >? 148) eqn:E3; destruct (444 <? Z.of_nat (length bu)) eqn:E4;
+  destruct (148 <? Z.of_nat (length bu)) eqn:E5; destruct (Z.of_nat (length bu) <? 444) eqn:E6; cbn [andb]; try reflexivity; lia.
+Qed.
+
+(* the timeslot octet is sent unmasked: a timeslot number above 7 would be read back as another timeslot / version *)
+Example c_tx_tn_unmasked :
+  (match c_burst_req 9 5 0 (repeat 1 148) with TxSent o => parse_tx o | TxOOB => Crash end)
+   = Ok {| t_ver := 0; t_fn := Some 5; t_tn := Some 1; t_pwr := Some 0; t_burst := Some (repeat 1 148) |}
+  /\ (match c_burst_req 23 5 0 (repeat 1 148) with TxSent o => parse_tx o | TxOOB => Crash end)
+   = Ok {| t_ver := 1; t_fn := Some 5; t_tn := Some 7; t_pwr := Some 0; t_burst := Some (repeat 1 148) |}.
+Proof. split; vm_compute; reflexivity. Qed.
+
+Example c_to_py_example :
+  exists o, c_burst_req 7 2715647 255 (repeat 1 444) = TxSent o /\ length o = 450%nat.
+Proof. eexists. split; [vm_compute; reflexivity|reflexivity]. Qed.
+
+(* the unchecked memcpy: a burst request longer than 506 octets overruns uint8_t buf[512] *)
+Lemma c_burst_req_oob_refuted : c_burst_req 0 0 0 (repeat 0 507) = TxOOB.
+Proof. vm_compute. reflexivity. Qed.
